@@ -307,10 +307,13 @@ def gen_helper(rng):
     mode = "kept" if rng.random() < 0.6 else "rebind"
     body = []
     if mode == "rebind":
-        for p_ in rng.sample(ps, rng.randint(1, len(ps))):
+        order = rng.sample(ps, rng.randint(1, len(ps)))
+        for i_, p_ in enumerate(order):
             cur = next(c for c in ("int", "float", "bool") if p_ in sc[c])
             to = rng.choice({"int": ["int", "float", "float"], "float": ["float"], "bool": ["bool", "int", "float"]}[cur])
-            e = g.expr(to, sc)
+            # the definition types a parameter with its LAST type everywhere: an expression may read only parameters that already have it
+            later = set(order[i_ + 1:]) | ({p_} if to != cur else set())
+            e = g.expr(to, {c: [n for n in sc[c] if n not in later] for c in sc})
             if rng.random() < 0.6 and to != "bool":       # `p = p * 0.5`, `p = p + 1`: the usual shape
                 e = (rng.choice(["add", "mul", "sub"]), ("v", p_), ("f", rng.choice(tygen.FLOATS)) if to == "float" else ("i", rng.randint(1, 4)))
             body.append(("as", p_, e))
